@@ -143,6 +143,10 @@ def jobs(tier):
     for L in Ls:
         for kind in ('p2p', 'pdu2') + (('bam255',) if (q and L in (61, 121)) or not q else ()):
             J(L=L, kind=kind)
+    for wins in ([2, 3], [255, 255]):
+        J(L=300, kind='p2p', windows=wins, bystander=False)
+        J(L=601, kind='p2p', windows=wins, bystander=False)
+    J(L=300, kind='pdu2', windows=[1, 1], bystander=False)
     J(L=121, kind='p2p', shape='twoway', L2=70, kind2='p2p', windows=[1, 2])
     for ad in ([0, 0x20, 0x30], [0x10, 0, 0x30], [253, 1, 0]):
         J(L=121, kind='p2p', addrs=ad)
